@@ -181,6 +181,11 @@ class SBool:
 
         return arr.scalar_ufunc(ufunc, method, *inputs, **kw)
 
+    def __array_function__(self, func, types, args, kwargs):
+        from . import arr
+
+        return arr.scalar_array_function(func, args, kwargs)
+
     def __repr__(self):
         return f"<SBool {self.e.get_id()}>"
 
@@ -302,6 +307,11 @@ class SInt:
         from . import arr
 
         return arr.scalar_ufunc(ufunc, method, *inputs, **kw)
+
+    def __array_function__(self, func, types, args, kwargs):
+        from . import arr
+
+        return arr.scalar_array_function(func, args, kwargs)
 
     def __repr__(self):
         return f"[[i#{term_token(self.e)}]]"
@@ -472,6 +482,11 @@ class SFloat:
         from . import arr
 
         return arr.scalar_ufunc(ufunc, method, *inputs, **kw)
+
+    def __array_function__(self, func, types, args, kwargs):
+        from . import arr
+
+        return arr.scalar_array_function(func, args, kwargs)
 
     def __repr__(self):
         return f"[[f#{term_token(self._b if self._b is not None else self._e)}]]"
